@@ -156,6 +156,12 @@ impl Prim {
     }
 }
 
+/// The identifier of a variant: variant names may carry an explicit discriminant (`"Low = 1"`, unit variants
+/// only), which is part of the definition's text but not of paths, patterns or hashes.
+pub fn vident(name: &str) -> &str {
+    name.split(" =").next().unwrap_or(name).trim()
+}
+
 #[derive(Clone, Copy, Debug, PartialEq, Eq, Hash, PartialOrd, Ord, Serialize, Deserialize)]
 pub enum RangeKind {
     Range,
